@@ -39,6 +39,64 @@ NUMERIC = {"lang": ["<digit>"], "nums": ["<num>", "<digit>"], "words": [], "bloc
            "kv": ["<num>", "<digit>"], "signed": ["<int>", "<digits>", "<digit>"]}
 
 
+# AMBIGUOUS grammars: several alternatives derive the same strings with DIFFERENT tree shapes (flat vs.
+# recursive, left vs. right recursion, optional parts).  A solution that Z3 / the parser delivers for a
+# partially expanded tree may then have fewer children at some position than the tree it replaces.
+AMB_NUM = {"<start>": ["<num>"], "<num>": ["<digit>", "<digit><num>", "<digit><digit><digit>"],
+           "<digit>": list("0123456789")}
+# (alternatives of one nonterminal have pairwise different lengths: with equally long alternatives the
+#  grammar-graph library fails first — recorded class gg-children — and masks everything behind it;
+#  AMB_WORD2 keeps one such grammar in the stream)
+AMB_LIST = {"<start>": ["<list>"], "<list>": ["<item>", "<item>,<list>", "<item>,<item>,<item>"],
+            "<item>": ["a", "b", "<digit>"], "<digit>": ["1", "2"]}
+AMB_WORD = {"<start>": ["<word>"], "<word>": ["<ch>", "<ch><word>", "<ch><ch><ch>", "<ch><ch><ch><ch>"],
+            "<ch>": ["x", "y", "7"]}
+AMB_WORD2 = {"<start>": ["<word>"], "<word>": ["<ch>", "<ch><word>", "<word><ch>", "<ch><ch>"], "<ch>": ["x", "y", "7"]}
+AMB_SUM = {"<start>": ["<sum>"], "<sum>": ["<n>", "<n>+<sum>", "<n>+<n>+<n>"], "<n>": ["<d>", "<d><n>", "<d><d><d>"],
+           "<d>": ["0", "1", "5"]}
+AMB_OPT = {"<start>": ["<seq>"], "<seq>": ["", "<a><seq>", "<a><a><a>"], "<a>": ["p", "q"]}
+AMB_REC = {"<start>": ["<rec>"], "<rec>": ["<f>", "<f>;<rec>", "<f>;<f>;<f>"], "<f>": ["<d>", "<d><f>", "<d><d><d>"],
+           "<d>": ["3", "4"]}
+AMBIGUOUS = {"amb_num": (AMB_NUM, ["<num>"]), "amb_list": (AMB_LIST, ["<list>"]), "amb_word": (AMB_WORD, ["<word>"]),
+             "amb_sum": (AMB_SUM, ["<sum>", "<n>"]), "amb_opt": (AMB_OPT, ["<seq>"]), "amb_word2": (AMB_WORD2, ["<word>"]),
+             "amb_rec": (AMB_REC, ["<rec>", "<f>"])}
+AMB_TEMPLATES = [
+    lambda nt, r: f"forall {nt} n in start: str.len(n) < {r.choice([3, 4, 5, 6])}",
+    lambda nt, r: f"forall {nt} n in start: str.len(n) < 5",
+    lambda nt, r: f"forall {nt} n: (>= (str.len n) {r.choice([1, 2])})",
+    lambda nt, r: f"forall {nt} n: (<= (str.len n) {r.choice([3, 4, 7])})",
+    lambda nt, r: f"forall {nt} n: (< (str.to.int n) {r.choice([50, 500, 1000])})",
+    lambda nt, r: f"forall {nt} n: (not (= n {r.choice(STR_LITS)}))",
+    lambda nt, r: f"exists {nt} n: (= (str.len n) {r.choice([2, 3, 4])})",
+    lambda nt, r: f"forall {nt} n: (str.in_re n (re.+ (re.union (re.range \"0\" \"9\") (re.range \"a\" \"z\") (str.to_re \",\") (str.to_re \"+\") (str.to_re \";\"))))",
+    lambda nt, r: f"str.len({nt}) < {r.choice([4, 5])}",
+    lambda nt, r: f"forall {nt} n: forall {nt} m in n: (<= (str.len m) (str.len n))",
+    lambda nt, r: f"forall {nt} n in start: (str.len(n) < 6 and str.len(n) > 0)",
+]
+
+
+def gen_ambiguous_instance(rng, idx, i):
+    """ambiguous grammar, SMT constraint over a nonterminal with differently shaped alternatives, 10-12 calls"""
+    sub = rng.getrandbits(40)
+    r = random.Random(sub)
+    gname = list(AMBIGUOUS)[i % len(AMBIGUOUS)]
+    g, nts = AMBIGUOUS[gname]
+    nt = r.choice(nts)
+    tpl = AMB_TEMPLATES[(i // len(AMBIGUOUS)) % len(AMB_TEMPLATES)] if i < 2 * len(AMBIGUOUS) else r.choice(AMB_TEMPLATES)
+    settings = {
+        "max_number_free_instantiations": r.choice([2, 2, 3]),
+        "max_number_smt_instantiations": r.choice([2, 2, 3, 5]),
+        "enable_optimized_z3_queries": r.random() < 0.7,
+        "enforce_unique_trees_in_queue": r.random() < 0.7,
+        "tree_insertion_methods": None,
+        "timeout_seconds": r.choice([None, None, 60]),
+        "activate_unsat_support": False,
+    }
+    return {"idx": idx, "sub_seed": sub, "gname": gname, "grammar": g, "formula": tpl(nt, r), "ops": ["ambiguous"],
+            "kind": "ambiguous", "settings": settings, "clock": r.choice(["frozen", "slow"]),
+            "ncalls": r.choice([10, 12, 12]), "real_clock": False, "focus": None, "budget": 4.0}
+
+
 def nonterminals(g):
     return [k for k in g if k != "<start>"]
 
@@ -322,7 +380,7 @@ def gen_instance(rng, idx, tier, focus=None):
     if settings["timeout_seconds"] is None and not settings["activate_unsat_support"]:
         clock = "slow"
     return {"idx": idx, "sub_seed": sub, "gname": gname, "grammar": g, "formula": formula, "ops": sorted(used),
-            "kind": kind, "settings": settings, "clock": clock, "ncalls": r.choice([4, 6, 8, 12]),
+            "kind": kind, "settings": settings, "clock": clock, "ncalls": r.choice([4, 6, 8, 10, 12, 12]),
             "real_clock": False, "focus": focus}
 
 
@@ -714,7 +772,9 @@ def run(run):
         "operators of IslaLanguage.g4 incl. one stream focused on every SMT operator, quantifiers, structural "
         "predicates, count, numeric quantifiers; settings max_number_free/smt_instantiations, optimized queries, "
         "unique trees, tree_insertion_methods, timeout_seconds in {None,0,1,2,5}, activate_unsat_support; fake "
-        "non-decreasing clock frozen/slow/jumpy/step) x call sequences of 4-12 solve() calls. Per call: outcome, "
+        "non-decreasing clock frozen/slow/jumpy/step/percall) x call sequences of 4-12 solve() calls; plus a stream on "
+        "AMBIGUOUS grammars (same string, differently shaped trees) with SMT constraints over the ambiguous "
+        "nonterminals and 10-12 calls. Witnesses of repaired findings are corpus cases that must pass. Per call: outcome, "
         "queue length, pending solutions, step_cnt, start_time compared with the Coq model run on the observed "
         "process table; property oracle on the outcome sequence. non-trivial = the history has >=1 call after the "
         "first StopIteration/TimeoutError")
@@ -738,6 +798,10 @@ def run(run):
         it["settings"].update({"max_number_free_instantiations": [10, 3, 5][i % 3], "timeout_seconds": [2, 5, 1, 2, 5][i % 5],
                                "activate_unsat_support": False})
         insts.append(it)
+    # ambiguous grammars, SMT atoms over nonterminals with differently shaped alternatives, 10-12 calls
+    # (crashes that need a solution whose tree shape differs from the partially expanded tree it replaces)
+    for i in range(72 if thorough else 18):
+        insts.append(gen_ambiguous_instance(rng, len(insts), i))
     # a few instances on the untouched class with the real clock (tiny real timeouts)
     n_plain = 24 if thorough else 6
     for i in range(n_plain):
@@ -749,9 +813,11 @@ def run(run):
         it["budget"] = 3.0
         insts.append(it)
     # witnesses of the recorded findings (replayed on the implementation every run)
-    known = [e for e in load_findings() if e.get("status") == "open"]
+    findings = load_findings()
+    known = [e for e in findings if e.get("status") == "open"]
+    fixed = [e for e in findings if e.get("status") == "fixed"]
     wit = []
-    for e in known:
+    for e in known + fixed:     # fixed entries: their witnesses are corpus cases that must pass
         wi = plain_instance(e["witness"], len(insts) + len(wit))
         wi["finding"] = e["key"]
         wit.append(wi)
@@ -760,16 +826,18 @@ def run(run):
     recs = run_pool(wit + insts, workers)   # witnesses first: fresh worker processes
     run.cov["impl_seconds"] = round(real_time.time() - t0, 1)
 
-    by_key = {e["key"]: e for e in known}
+    by_key = {e["key"]: e for e in known}          # OPEN classes only: anything else is reported
+    all_by_key = {e["key"]: e for e in known + fixed}
     hist = {"outcome": {}, "ctor": {}, "kind": {}, "ops": {}, "crash_class": {}, "timeout_setting": {}, "seq_shapes": {}}
 
     def bump(h, k):
         hist[h][str(k)] = hist[h].get(str(k), 0) + 1
 
     # ---- known-finding witnesses: still present?
+    regressions = []
     for wi in wit:
         rec = recs[wi["idx"]]
-        e = by_key[wi["finding"]]
+        e = all_by_key[wi["finding"]]
         an = analyze(wi, rec) if rec["ctor"] == "ok" else None
         present = False
         if an:
@@ -782,6 +850,20 @@ def run(run):
                     if o["kind"] == "raise" and crash_class({"type": o["type"], "msg": o["msg"], "where": o["where"],
                                                              "exn": o["exn"], "inner": False}) == e["key"]:
                         present = True
+        if e["status"] == "fixed":
+            # corpus case of a repaired defect: it must pass (allowed outcomes, sticky); no KNOWN-FINDING line
+            bad = present
+            if an:
+                tm = wi["settings"]["timeout_seconds"]
+                bad = bad or sticky_break(an["seq"], "S") is not None or sticky_break(an["seq"], "O") is not None \
+                    or ("O" in an["seq"] and tm is None) \
+                    or any(crash_class(cr) not in by_key for cr in an["crashes"])
+            run.cov.setdefault("fixed_corpus_replay", {})[e["key"]] = (
+                "REGRESSION" if bad else "passes (%s)" % (an["seq"] if an else "ctor: " + rec["ctor"][:40]))
+            if bad:
+                regressions.append({"kind": "regression of a repaired defect: " + e["key"], "fixed_by": e.get("commit"),
+                                    "what": e.get("what") or e.get("fixed_line"), "witness": witness_of(wi, rec)})
+            continue
         if present:
             run.known(e["what"])
         run.cov.setdefault("known_witness_replay", {})[e["key"]] = "present" if present else (
@@ -789,7 +871,7 @@ def run(run):
 
     # ---- generated instances
     cases, case_meta = [], []
-    viol_prop, viol_corr = [], []
+    viol_prop, viol_corr = list(regressions), []
     for inst in insts:
         rec = recs[inst["idx"]]
         bump("kind", inst["kind"])
